@@ -115,3 +115,34 @@ package openapiv3
 //@   ensures repeated_dispatch: spec.hasRules(field) && field.Desc.IsList() && spec.fieldRules(field).GetRepeated() != nil && spec.fieldRules(field).GetRepeated().HasMinItems() ==> schema.MinItems != nil
 //@   ensures map_dispatch: spec.hasRules(field) && field.Desc.IsMap() && spec.fieldRules(field).GetMap() != nil && spec.fieldRules(field).GetMap().HasMinPairs() ==> schema.MinProperties != nil
 //@   ensures other_kinds_translated: spec.hasRules(field) ==> (field.Desc.Kind() == protoreflect.Sint32Kind && spec.fieldRules(field).GetSint32() != nil && spec.fieldRules(field).GetSint32().HasLte() ==> schema.Maximum != nil) && (field.Desc.Kind() == protoreflect.Sfixed32Kind && spec.fieldRules(field).GetSfixed32() != nil && spec.fieldRules(field).GetSfixed32().HasLte() ==> schema.Maximum != nil) && (field.Desc.Kind() == protoreflect.Uint32Kind && spec.fieldRules(field).GetUint32() != nil && spec.fieldRules(field).GetUint32().HasLte() ==> schema.Maximum != nil) && (field.Desc.Kind() == protoreflect.Fixed32Kind && spec.fieldRules(field).GetFixed32() != nil && spec.fieldRules(field).GetFixed32().HasLte() ==> schema.Maximum != nil) && (field.Desc.Kind() == protoreflect.Sint64Kind && spec.fieldRules(field).GetSint64() != nil && spec.fieldRules(field).GetSint64().HasLte() ==> schema.Maximum != nil) && (field.Desc.Kind() == protoreflect.Sfixed64Kind && spec.fieldRules(field).GetSfixed64() != nil && spec.fieldRules(field).GetSfixed64().HasLte() ==> schema.Maximum != nil) && (field.Desc.Kind() == protoreflect.Uint64Kind && spec.fieldRules(field).GetUint64() != nil && spec.fieldRules(field).GetUint64().HasLte() ==> schema.Maximum != nil) && (field.Desc.Kind() == protoreflect.Fixed64Kind && spec.fieldRules(field).GetFixed64() != nil && spec.fieldRules(field).GetFixed64().HasLte() ==> schema.Maximum != nil)
+
+// ---- termination measures of the recursive traversals (C16) ----
+
+//@ func (g *Generator) processMessage(message *protogen.Message)
+//@   modifies *
+//@   decreases spec.mdepth(message)
+
+// visited-set traversal of the type graph: terminates because the visited set grows (C16), and a message that
+// is newly visited has the messages of its fields, its map values and its nested definitions visited too (C18).
+//@ func (g *Generator) collectMessageRecursive(message *protogen.Message, processed map[string]bool)
+//@   modifies *, processed
+//@   decreases spec.remainingB(processed)
+//@   ensures grows: forall s string :: inDom(old(processed), s) && old(processed)[s] ==> inDom(processed, s) && processed[s]
+//@   ensures measure: spec.remainingB(processed) <= spec.remainingB(old(processed))
+//@   ensures self: message != nil ==> inDom(processed, string(message.Desc.FullName())) && processed[string(message.Desc.FullName())]
+//@   ensures fields: message != nil && !(inDom(old(processed), string(message.Desc.FullName())) && old(processed)[string(message.Desc.FullName())]) ==> (forall k int :: 0 <= k && k < len(message.Fields) && message.Fields[k].Message != nil ==> inDom(processed, string(message.Fields[k].Message.Desc.FullName())) && processed[string(message.Fields[k].Message.Desc.FullName())])
+//@   ensures nested: message != nil && !(inDom(old(processed), string(message.Desc.FullName())) && old(processed)[string(message.Desc.FullName())]) ==> (forall k int :: 0 <= k && k < len(message.Messages) ==> inDom(processed, string(message.Messages[k].Desc.FullName())) && processed[string(message.Messages[k].Desc.FullName())])
+//@   loop 1 invariant forall s string :: inDom(old(processed), s) && old(processed)[s] ==> inDom(processed, s) && processed[s]
+//@   loop 1 invariant inDom(processed, key) && processed[key]
+//@   loop 1 invariant spec.remainingB(processed) < spec.remainingB(old(processed))
+//@   loop 1 invariant forall k int :: 0 <= k && k < _i1 && message.Fields[k].Message != nil ==> inDom(processed, string(message.Fields[k].Message.Desc.FullName())) && processed[string(message.Fields[k].Message.Desc.FullName())]
+//@   loop 2 invariant forall s string :: inDom(old(processed), s) && old(processed)[s] ==> inDom(processed, s) && processed[s]
+//@   loop 2 invariant inDom(processed, key) && processed[key]
+//@   loop 2 invariant spec.remainingB(processed) < spec.remainingB(old(processed))
+//@   loop 2 invariant field.Message != nil ==> inDom(processed, string(field.Message.Desc.FullName())) && processed[string(field.Message.Desc.FullName())]
+//@   loop 2 invariant forall k int :: 0 <= k && k < _i1 && message.Fields[k].Message != nil ==> inDom(processed, string(message.Fields[k].Message.Desc.FullName())) && processed[string(message.Fields[k].Message.Desc.FullName())]
+//@   loop 3 invariant forall s string :: inDom(old(processed), s) && old(processed)[s] ==> inDom(processed, s) && processed[s]
+//@   loop 3 invariant inDom(processed, key) && processed[key]
+//@   loop 3 invariant spec.remainingB(processed) < spec.remainingB(old(processed))
+//@   loop 3 invariant forall k int :: 0 <= k && k < len(message.Fields) && message.Fields[k].Message != nil ==> inDom(processed, string(message.Fields[k].Message.Desc.FullName())) && processed[string(message.Fields[k].Message.Desc.FullName())]
+//@   loop 3 invariant forall k int :: 0 <= k && k < _i3 ==> inDom(processed, string(message.Messages[k].Desc.FullName())) && processed[string(message.Messages[k].Desc.FullName())]
